@@ -91,6 +91,22 @@ class VMModel:
                                 used.add(x['name'])
             if len(used) == 1:
                 not_ip = set(ints) - used
+        bools = [fld['name'] for fld in self.vm['fields'] if fld['cty'] == 'bool']
+        if len(bools) > 1:
+            # several flags: the stepping flag is the one setSteppingMode assigns from its parameter
+            ssm = self.facts.fn('Theo::VM::setSteppingMode', optional=True)
+            used = set()
+            if ssm is not None and ssm.get('body') is not None and ssm['params']:
+                pd = ssm['params'][0]['d']
+                for e in walk_all_exprs(ssm['body']):
+                    if e.get('k') == 'assign' and e.get('op') == '=':
+                        l = e['l']
+                        while l is not None and l.get('k') in ('cast', 'paren'):
+                            l = l.get('e')
+                        if l is not None and l.get('k') == 'member' and l.get('name') in bools and any(x.get('k') == 'ref' and x.get('d') == pd for x in walk_expr(e['r'])):
+                            used.add(l['name'])
+            if len(used) == 1:
+                not_ip |= set(bools) - used
         for fld in self.vm['fields']:
             c = fld['cty'].replace('std::__cxx11::', 'std::')
             if fld['name'] in not_ip:
@@ -252,6 +268,11 @@ class VMModel:
         for ef in s.p.effects:
             k = ef[0]
             if k == 'write':
+                if lp_show(ef[1]).split('.')[0].split('[')[0] in self.roles.get('other', []):
+                    # a write to VM state outside the model (a cache, a statistic): it cannot change what the modelled
+                    # state does unless something reads it, and a read shows up as pre(<field>) in a term
+                    self.ignored_other_writes = getattr(self, 'ignored_other_writes', set()) | {lp_show(ef[1])}
+                    continue
                 out.append(('write', lp_show(ef[1]), t_show(ef[2].term), _lc(ef[3])))
             elif k == 'store':
                 out.append(('store', lp_show(ef[1]), t_show(ef[2]), t_show(ef[3].term), _lc(ef[4])))
